@@ -1,5 +1,6 @@
 import ZwVerif.Model.Regex
 import ZwVerif.Model.Value
+import ZwVerif.Generated.LexerRules
 /-
   Model of libzwerg/lexer.ll: three start conditions (INITIAL, STRING,
   STRING_EMBEDDED), each a table of (pattern, action) scanned by longest match,
@@ -45,81 +46,160 @@ inductive IAct where
   | tok (t : Tok) | lbracket | word | numword | strBegin (raw : Bool) | litInt | skip | op | bad
 deriving Repr, Inhabited
 
-/-- INITIAL rules in file order (rule order decides ties). -/
-def initialRules : List (RE × IAct × String) := [
-  (lit "(", .tok .lparen, "\"(\""),
-  (lit ")", .tok .rparen, "\")\""),
-  (lit "?(", .tok .qlparen, "\"?(\""),
-  (lit "!(", .tok .blparen, "\"!(\""),
-  (cat (star (chr '`')) (chr '['), .lbracket, "\"`\"*\"[\""),
-  (lit "]", .tok .rbracket, "\"]\""),
-  (lit "{", .tok .lbrace, "\"{\""),
-  (lit "}", .tok .rbrace, "\"}\""),
-  (lit "?{", .tok .qlbrace, "\"?{\""),
-  (lit "!{", .tok .blbrace, "\"!{\""),
-  (lit "*", .tok .asterisk, "\"*\""),
-  (lit "+", .tok .plus, "\"+\""),
-  (lit "?", .tok .qmark, "\"?\""),
-  (lit ",", .tok .comma, "\",\""),
-  (lit "||", .tok .dvbar, "\"||\""),
-  (lit "|", .tok .vbar, "\"|\""),
-  (lit ":", .tok .colon, "\":\""),
-  (lit ";", .tok .semicolon, "\";\""),
-  (lit ":=", .tok .assign, "\":=\""),
-  (lit "if", .tok .kif, "\"if\""),
-  (lit "then", .tok .kthen, "\"then\""),
-  (lit "else", .tok .kelse, "\"else\""),
-  (lit "let", .tok .klet, "\"let\""),
-  (lit "\\dbg", .tok .debug, "\"\\\\dbg\""),
-  (cat (opt (anyOf [one '?', one '!', one '@', one '.', one '\\'])) reID, .word, "[?!@.\\\\]?{ID}"),
-  (cat (anyOf [one '?', one '!']) reINT, .numword, "[?!]{INT}"),
-  (lit "\"", .strBegin false, "\"\\\"\""),
-  (lit "r\"", .strBegin true, "\"r\\\"\""),
-  (cat (opt (chr '-')) reINT, .litInt, "\"-\"?{INT}"),
-  (plus (anyOf cWs), .skip, "[ \\t\\n]+"),
-  (cat (alt (chr '#') (lit "//")) (star (noneOf [one '\n'])), .skip, "(#|[/][/])[^\\n]*"),
-  -- [/][*]([^*]|[*]+[^*/])*[*]+[/]
-  (cat (lit "/*") (cat (star (alt (noneOf [one '*']) (cat (plus (chr '*')) (noneOf [one '*', one '/']))))
-        (cat (plus (chr '*')) (chr '/'))), .skip, "[/][*]([^*]|[*]+[^*/])*[*]+[/]"),
-  (cat (opt (anyOf [one '?', one '!'])) (plus (anyOf cOp)), .op, "[?!]?[$%&.-/:<=>@^_~\\\\]+"),
-  (dot, .bad, ".")
+/-- actions of the initialRules rules, in the file order of lexer.ll -/
+def initialRulesActs : List IAct := [
+  .tok .lparen,
+  .tok .rparen,
+  .tok .qlparen,
+  .tok .blparen,
+  .lbracket,
+  .tok .rbracket,
+  .tok .lbrace,
+  .tok .rbrace,
+  .tok .qlbrace,
+  .tok .blbrace,
+  .tok .asterisk,
+  .tok .plus,
+  .tok .qmark,
+  .tok .comma,
+  .tok .dvbar,
+  .tok .vbar,
+  .tok .colon,
+  .tok .semicolon,
+  .tok .assign,
+  .tok .kif,
+  .tok .kthen,
+  .tok .kelse,
+  .tok .klet,
+  .tok .debug,
+  .word,
+  .numword,
+  .strBegin false,
+  .strBegin true,
+  .litInt,
+  .skip,
+  .skip,
+  .skip,
+  .op,
+  .bad
 ]
+
+/-- pattern texts the actions above were written for (the tie theorem of C15 compares them with lexer.ll's) -/
+def initialRulesTexts : List String := [
+  "\"(\"",
+  "\")\"",
+  "\"?(\"",
+  "\"!(\"",
+  "\"`\"*\"[\"",
+  "\"]\"",
+  "\"{\"",
+  "\"}\"",
+  "\"?{\"",
+  "\"!{\"",
+  "\"*\"",
+  "\"+\"",
+  "\"?\"",
+  "\",\"",
+  "\"||\"",
+  "\"|\"",
+  "\":\"",
+  "\";\"",
+  "\":=\"",
+  "\"if\"",
+  "\"then\"",
+  "\"else\"",
+  "\"let\"",
+  "\"\\\\dbg\"",
+  "[?!@.\\\\]?{ID}",
+  "[?!]{INT}",
+  "\"\\\"\"",
+  "\"r\\\"\"",
+  "\"-\"?{INT}",
+  "[ \\t\\n]+",
+  "(#|[/][/])[^\\n]*",
+  "[/][*]([^*]|[*]+[^*/])*[*]+[/]",
+  "[?!]?[$%&.-/:<=>@^_~\\\\]+",
+  "."
+]
+
+/-- the patterns are the ones regenerated from lexer.ll on every run -/
+def initialRules : List (RE × IAct × String) :=
+  (Generated.lex_INITIAL.zip initialRulesActs).map fun (r, a) => (r.1, a, r.2.1)
 
 inductive SAct where
   | escOct | escHex | esc | contPlain | contRaw | strEnd | pct | splice
   | fmt (sub : String) | char
 deriving Repr, Inhabited
 
-def stringRules : List (RE × SAct × String) := [
-  (cat (chr '\\') (cat (anyOf [range '0' '3']) (cat (opt reOCT) (opt reOCT))), .escOct, "\"\\\\\"[0-3]{OCT}?{OCT}?"),
-  (cat (lit "\\x") (cat reHEX reHEX), .escHex, "\"\\\\x\"{HEX}{HEX}"),
-  (cat (chr '\\') any, .esc, "\"\\\\\"(.|[\\n])"),
-  (cat (lit "\"\\") (cat (star (anyOf cWs)) (chr '"')), .contPlain, "\"\\\"\\\\\"[ \\t\\n]*\"\\\"\""),
-  (cat (lit "\"\\") (cat (star (anyOf cWs)) (lit "r\"")), .contRaw, "\"\\\"\\\\\"[ \\t\\n]*\"r\\\"\""),
-  (lit "\"", .strEnd, "\"\\\"\""),
-  (lit "%%", .pct, "\"%%\""),
-  (lit "%(", .splice, "\"%(\""),
-  (lit "%s", .fmt "", "\"%s\""),
-  (lit "%x", .fmt "value hex", "\"%x\""),
-  (lit "%o", .fmt "value oct", "\"%o\""),
-  (lit "%b", .fmt "value bin", "\"%b\""),
-  (lit "%d", .fmt "value", "\"%d\""),
-  (any, .char, "(.|[\\n])")
+/-- actions of the stringRules rules, in the file order of lexer.ll -/
+def stringRulesActs : List SAct := [
+  .escOct,
+  .escHex,
+  .esc,
+  .contPlain,
+  .contRaw,
+  .strEnd,
+  .pct,
+  .splice,
+  .fmt "",
+  .fmt "value hex",
+  .fmt "value oct",
+  .fmt "value bin",
+  .fmt "value",
+  .char
 ]
+
+/-- pattern texts the actions above were written for (the tie theorem of C15 compares them with lexer.ll's) -/
+def stringRulesTexts : List String := [
+  "\"\\\\\"[0-3]{OCT}?{OCT}?",
+  "\"\\\\x\"{HEX}{HEX}",
+  "\"\\\\\"(.|[\\n])",
+  "\"\\\"\\\\\"[ \\t\\n]*\"\\\"\"",
+  "\"\\\"\\\\\"[ \\t\\n]*\"r\\\"\"",
+  "\"\\\"\"",
+  "\"%%\"",
+  "\"%(\"",
+  "\"%s\"",
+  "\"%x\"",
+  "\"%o\"",
+  "\"%b\"",
+  "\"%d\"",
+  "(.|[\\n])"
+]
+
+/-- the patterns are the ones regenerated from lexer.ll on every run -/
+def stringRules : List (RE × SAct × String) :=
+  (Generated.lex_STRING.zip stringRulesActs).map fun (r, a) => (r.1, a, r.2.1)
 
 inductive EAct where
   | open_ | close | escQuote | quote | spliceOpen | spliceClose | char
 deriving Repr, Inhabited
 
-def embeddedRules : List (RE × EAct × String) := [
-  (anyOf [one '(', one '[', one '{'], .open_, "[\\(\\[\\{]"),
-  (anyOf [one ')', one ']', one '}'], .close, "[\\)\\]\\}]"),
-  (lit "\\\"", .escQuote, "\"\\\\\\\"\""),
-  (lit "\"", .quote, "\"\\\"\""),
-  (lit "%(", .spliceOpen, "\"%(\""),
-  (lit "%)", .spliceClose, "\"%)\""),
-  (any, .char, "(.|[\\n])")
+/-- actions of the embeddedRules rules, in the file order of lexer.ll -/
+def embeddedRulesActs : List EAct := [
+  .open_,
+  .close,
+  .escQuote,
+  .quote,
+  .spliceOpen,
+  .spliceClose,
+  .char
 ]
+
+/-- pattern texts the actions above were written for (the tie theorem of C15 compares them with lexer.ll's) -/
+def embeddedRulesTexts : List String := [
+  "[\\(\\[\\{]",
+  "[\\)\\]\\}]",
+  "\"\\\\\\\"\"",
+  "\"\\\"\"",
+  "\"%(\"",
+  "\"%)\"",
+  "(.|[\\n])"
+]
+
+/-- the patterns are the ones regenerated from lexer.ll on every run -/
+def embeddedRules : List (RE × EAct × String) :=
+  (Generated.lex_STRING_EMBEDDED.zip embeddedRulesActs).map fun (r, a) => (r.1, a, r.2.1)
 
 /-- pattern texts in file order, for the tie with lexer.ll (checked by translate.py) -/
 def ruleTexts : List String :=
